@@ -295,6 +295,10 @@ impl Space for InstantsZoned {
                         let want = format!("{}T{}{otext}[{otext}]", date_text(y, m, d), time_text(local.rem_euclid(NS_PER_DAY), pm));
                         let opts = ToStringRoundingOptions { precision: pi, smallest_unit: su, rounding_mode: mode.map(imode) };
                         let got = call(|| z.to_ixdtf_string_with_provider(DisplayOffset::Auto, DisplayTimeZone::Auto, DisplayCalendar::Auto, opts, &ErrProvider));
+                        let inst_want = want.split('[').next().unwrap_or("").to_string();
+                        let opts_i = ToStringRoundingOptions { precision: pi, smallest_unit: su, rounding_mode: mode.map(imode) };
+                        let got_i = call(|| Instant::try_new(t)?.to_ixdtf_string_with_provider(Some(&tz), opts_i, &ErrProvider));
+                        out.lockstep("Instant::to_ixdtf_string(in a zone, rounded)", &Ok(inst_want), &got_i, |a, b| a == b, attrs);
                         if out.lockstep("ZonedDateTime::to_ixdtf_string(rounded)", &Ok(want.clone()), &got, |a, b| a == b, attrs) {
                             let back = call(|| ZonedDateTime::from_str_with_provider(&want, Disambiguation::Reject, OffsetDisambiguation::Reject, &ErrProvider));
                             out.lockstep("ZonedDateTime::from_str(format(v)) = rounded v", &Ok(r), &back, |a, b| b.epoch_nanoseconds().as_i128() == *a, attrs);
@@ -571,6 +575,10 @@ impl Space for ZonedNamed {
                     let opts = ToStringRoundingOptions { precision: pi, smallest_unit: su, rounding_mode: Some(imode(mode)) };
                     let got = call(|| z.to_ixdtf_string_with_provider(DisplayOffset::Auto, DisplayTimeZone::Auto, DisplayCalendar::Auto, opts, &provider));
                     out.lockstep("ZonedDateTime::to_ixdtf_string(named zone)", &Ok(want.clone()), &got, |a, b| a.contains(b), attrs);
+                    let inst_want: Vec<String> = want.iter().map(|w| w.split('[').next().unwrap_or("").to_string()).collect();
+                    let opts_i = ToStringRoundingOptions { precision: pi, smallest_unit: su, rounding_mode: Some(imode(mode)) };
+                    let got_i = call(|| Instant::try_new(t)?.to_ixdtf_string_with_provider(Some(&tz), opts_i, &provider));
+                    out.lockstep("Instant::to_ixdtf_string(in a named zone, rounded)", &Ok(inst_want), &got_i, |a, b| a.contains(b), attrs);
                 }
             }
         }
@@ -603,6 +611,9 @@ impl Space for ZonedNamed {
                 }
                 let spec = spec.map_err(|_| temporal_rs::error::ErrorKind::Range);
                 out.lockstep("ZonedDateTime::from_str(format(v)) = v (named zone)", &spec, &back, |a, b| b.epoch_nanoseconds().as_i128() == *a && b.timezone().identifier().ok().as_deref() == Some(name.as_str()), attrs);
+                // the same text given as a relativeTo string denotes the same zoned value
+                let rel = call(|| temporal_rs::options::RelativeTo::try_from_str_with_provider(&want, &provider));
+                out.lockstep("RelativeTo::try_from_str(format(v)) = v (named zone)", &spec, &rel, |a, b| matches!(b, temporal_rs::options::RelativeTo::ZonedDateTime(z) if z.epoch_nanoseconds().as_i128() == *a), attrs);
             }
         }
         if out.want_sample() && name == "Africa/Monrovia" {
